@@ -26,7 +26,10 @@ from harness import common
 from harness.common import Failure, lean_run
 
 PROP_MODULES = ["ArmiVerif.Props.C16"]
-PARTIAL = ("definition-level flags: back-up chains proved balanced (defs_lifo) and non-kept flags proved restored "
+PARTIAL = ("in-place mutations of parameter values (`pokeP`) are modelled and tied (scopes, copies) but are not part of "
+           "`Prog`: retain_restores speaks about assignments through setters (a kept parameter that was only mutated "
+           "in place is restored, as in the code); parameters holding nested arrays are kept out of keep-sets (known finding); "
+           "definition-level flags: back-up chains proved balanced (defs_lifo) and non-kept flags proved restored "
            "(def_assigned_restored); the value of a KEPT definition's flag after a scope is tied by correspondence only; "
            "values are equality codes: what pickle/deepcopy do to a leaf value is a parameter of the model (checked "
            "on the implementation: value canonical forms before/after); custom parameter setters and the API-level "
@@ -102,6 +105,8 @@ class Session:
         self.skipnames = set(SKIP_PARAMS)
         self.keepstack = []
         self.desync = False
+        self.nested_names = set()
+        self.alias_ids = set()
         self.emit("reset", "ok")
 
     def case(self):
@@ -166,6 +171,17 @@ class Session:
     def lines(self, objs):
         return ";".join(self.obj_line(o) for o in objs)
 
+    def scan_alias(self, group):
+        """ids of container values held by more than one (object, parameter) of the group"""
+        seen = {}
+        for o in group:
+            for q in o.p.paramDefs:
+                w = getattr(o.p, q.fieldName, None)
+                if isinstance(w, (np.ndarray, list, dict)):
+                    for i in {id(w)} | {id(x) for x in _inner_arrays(w)}:
+                        seen[i] = seen.get(i, 0) + 1
+        self.alias_ids |= {i for i, n in seen.items() if n > 1}
+
     def register(self, o):
         self.ids[id(o)] = len(self.objs)
         self.objs.append(o)
@@ -173,6 +189,7 @@ class Session:
     def mirror(self, root):
         """register an existing tree and load its current state into the model"""
         walk = preorder(root)
+        self.scan_alias(walk)
         for o in walk:
             self.register(o)
             ds = [self.did(pd) for pd in self.pdefs(o)]
@@ -231,7 +248,14 @@ def snapshot(ses, objs):
     """independent full dump: canonical forms of every parameter, cache and grid of the given objects"""
     out = {}
     for o in objs:
-        d = {pd.name: canon(ses.val(o, pd)) for pd in o.p.paramDefs}
+        d = {}
+        for pd in o.p.paramDefs:
+            try:
+                d[pd.name] = canon(o.p[pd.name])      # the public read: raises for a never-assigned parameter
+            except Exception:
+                d[pd.name] = "<unset>"
+            if (d[pd.name] == "<unset>") != (canon(ses.val(o, pd)) == "ND"):
+                d[pd.name] += "|stored:" + canon(ses.val(o, pd))
         d["<cache>"] = canon({k: v for k, v in o.cached.items() if isinstance(k, str) and k.startswith("k")})
         g = o.spatialGrid
         d["<grid>"] = None if g is None else (canon(g._unitSteps), canon(g._bounds), canon(g._offset))
@@ -263,6 +287,8 @@ def new_value(rng, cur):
         return (float(cur) if cur == cur and abs(cur) < 1e300 else 0.0) + rng.choice([1.5, -0.25, 2.0])
     if isinstance(cur, np.ndarray):
         if cur.dtype.kind == "f":
+            if cur.ndim == 1 and rng.random() < 0.3:
+                return np.append(cur * 2.0 + 1.0, 1.0)      # a different shape
             return cur * 2.0 + 1.0
         return None
     if isinstance(cur, list):
@@ -273,7 +299,7 @@ def new_value(rng, cur):
         return cur + "x"
     if isinstance(cur, dict):
         return {**cur, "U235": rng.choice([1e-3, 2.5e-2])}
-    if cur is None:
+    if cur is None or canon(cur) == "ND":
         return rng.choice([3.25, [1.0, 2.0], np.array([1.0, 2.0]), {"U235": 1e-3}, "txt", 7])
     return None
 
@@ -287,13 +313,17 @@ def do_set(ses, t, only=None, custom=False):
     if not pds:
         return False
     kept = [pd for pd in pds if any(pd is q for ks in ses.keepstack for q in ks)]
-    pd = rng.choice(kept) if kept and rng.random() < 0.5 else rng.choice(pds)
+    unset = [pd for pd in pds if ses.val(t, pd) is NoDefault]
+    k = rng.random()
+    pd = rng.choice(unset) if unset and k < 0.25 else rng.choice(kept) if kept and k < 0.6 else rng.choice(pds)
     if only is not None:
         pd = only
     cur = ses.val(t, pd)
-    if cur is NoDefault or type(cur).__name__ == "_DimensionLink":
+    if type(cur).__name__ == "_DimensionLink" or pd.name in ses.nested_names:
         return False
-    if rng.random() < 0.08:
+    if cur is NoDefault:
+        ses.ctx.count("assign a never-assigned (NoDefault) parameter")
+    if rng.random() < 0.08 and cur is not NoDefault:
         v = None
     else:
         v = new_value(rng, cur)
@@ -336,6 +366,98 @@ class _Desync(Exception):
     pass
 
 
+def _inner_arrays(v):
+    if isinstance(v, np.ndarray) and v.dtype == object:
+        return [x for x in v.flat if isinstance(x, np.ndarray)]
+    if isinstance(v, (list, tuple)):
+        return [x for x in v if isinstance(x, np.ndarray)]
+    if isinstance(v, dict):
+        return [x for x in v.values() if isinstance(x, np.ndarray)]
+    return []
+
+
+def is_nested(v):
+    return bool(_inner_arrays(v))
+
+
+def poke_value(rng, v):
+    """change a mutable parameter value IN PLACE (never through the setter); True if something changed"""
+    inner = [x for x in _inner_arrays(v) if x.size and x.dtype.kind == "f" and x.flags.writeable]
+    if inner:
+        x = rng.choice(inner)
+        x.flat[rng.randrange(x.size)] += 1.0
+        return True
+    if isinstance(v, np.ndarray):
+        if v.dtype != object and v.size and v.dtype.kind in "fi" and v.flags.writeable:
+            v.flat[rng.randrange(v.size)] += 1
+            return True
+        return False
+    if isinstance(v, list) and all(isinstance(x, (int, float)) and not isinstance(x, bool) for x in v):
+        v.append(1.0)
+        return True
+    if isinstance(v, dict):
+        ks = [k for k, x in v.items() if isinstance(x, float)]
+        if ks:
+            v[rng.choice(sorted(ks, key=str))] += 0.5
+            return True
+    return False
+
+
+def do_poke(ses, t, prefer_nested=False):
+    """an in-place mutation of the value held by one parameter of t (real object + model request)"""
+    rng = ses.rng
+    if t.p.readOnly:
+        return False
+    pds = [pd for pd in ses.pdefs(t) if pd.name not in ses.skipnames and default_setter(pd)
+           and isinstance(ses.val(t, pd), (np.ndarray, list, dict))]
+    nested = [pd for pd in pds if is_nested(ses.val(t, pd))]
+    if prefer_nested and nested:
+        pds = nested
+    if not pds:
+        return False
+    pd = rng.choice(pds)
+    v = ses.val(t, pd)
+    # the model has one value per (object, parameter): skip values that the real objects share natively (the same
+    # object held by two parameters of one tree, e.g. a class default).  Sharing between an original and its copy is
+    # NOT excused -- that is what this operation is there to reveal.
+    mine = {id(v)} | {id(x) for x in _inner_arrays(v)}
+    if mine & ses.alias_ids:
+        ses.ctx.count("poke skipped: value natively shared by several parameters")
+        return False
+    if not poke_value(rng, v):
+        return False
+    ses.log.append(f"poke {ses.ids[id(t)]} {pd.name}")
+    ses.emit(f"poke {ses.ids[id(t)]} {ses.did(pd)} {ses.code(ses.val(t, pd))}", "ok " + ses.obj_line(t))
+    ses.ctx.count(f"in-place mutation of a {'nested ' if is_nested(v) else ''}{type(v).__name__} value")
+    return True
+
+
+def seed_nested(ses, objs):
+    """give some None-valued plain parameters ragged / nested payloads (before the state is mirrored)"""
+    rng = ses.rng
+    done = 0
+    cands = [(o, pd) for o in objs for pd in ses.pdefs(o)
+             if default_setter(pd) and pd.name not in ses.skipnames and ses.val(o, pd) is None]
+    pin = [(o, pd) for o, pd in cands if pd.name.startswith("pinMgFluxes")]
+    for o, pd in pin + rng.sample(cands, min(len(cands), 4)):
+        kind = rng.choice(["ragged", "ragged", "listarr", "dictarr"])
+        if kind == "ragged":
+            v = np.empty(3, dtype=object)
+            for i, n in enumerate((2, 3, 1)):
+                v[i] = np.arange(n, dtype=float) + done
+        elif kind == "listarr":
+            v = [np.array([1.0, 2.0]) + done, np.array([3.0])]
+        else:
+            v = {"a": np.array([1.0, 2.0, 3.0]) + done, "b": np.array([4.0])}
+        try:
+            o.p[pd.name] = v
+        except Exception:
+            continue
+        ses.nested_names.add(pd.name)
+        done += 1
+    ses.ctx.count("nested (ragged / list-of-arrays / dict-of-arrays) payloads seeded", done)
+
+
 def do_cache(ses, t):
     k = ses.rng.randint(0, 2)
     v = ses.rng.choice([1.5, "c", [1, 2]])
@@ -350,6 +472,10 @@ def do_grid(ses, t):
         return
     if type(g).__name__ == "HexGrid":
         g.changePitch(g.pitch * ses.rng.choice([2.0, 0.5, 1.5]))
+    elif t.name == "rack" and ses.rng.random() < 0.5:
+        # in-place edit of the grid's own arrays (the rack's grid shares them with nobody)
+        g._offset[ses.rng.randint(0, 1)] += 0.25
+        ses.ctx.count("grid offset edited in place")
     else:
         xw, yw = g.pitch
         g.changePitch(xw * ses.rng.choice([2.0, 0.5, 1.5]), yw * ses.rng.choice([2.0, 0.5, 3.0]))
@@ -362,8 +488,10 @@ def body(ses, allobjs, depth, nsteps):
     rng = ses.rng
     for _ in range(nsteps):
         k = rng.random()
-        if k < 0.62:
+        if k < 0.52:
             do_set(ses, rng.choice(allobjs))
+        elif k < 0.62:
+            do_poke(ses, rng.choice(allobjs), prefer_nested=True)
         elif k < 0.72:
             do_cache(ses, rng.choice(allobjs))
         elif k < 0.80:
@@ -378,13 +506,15 @@ def scope(ses, allobjs, depth, root=None, keep=None, script=None):
     root = root if root is not None else rng.choice(allobjs)
     objs = [root] + list(root.iterChildren(deep=True))
     ids = "[" + ",".join(str(ses.ids[id(o)]) for o in objs) + "]"
-    pool = [pd for o in objs for pd in ses.pdefs(o) if pd.name not in ses.skipnames and default_setter(pd)]
+    pool = [pd for o in objs for pd in ses.pdefs(o) if pd.name not in ses.skipnames and default_setter(pd)
+            and pd.name not in ses.nested_names]
     if keep is None:
         keep = []
         if rng.random() < 0.6:
             keep = list({id(pd): pd for pd in rng.sample(pool, min(len(pool), rng.randint(1, 25)))}.values())
     keepnames_by_obj = {id(o): {pd.name for pd in keep if any(pd is q for q in o.p.paramDefs)} for o in objs}
     entry = snapshot(ses, allobjs)
+    log0 = len(ses.log)
     ses.log.append(f"enter {ses.ids[id(root)]} keep={len(keep)} depth={depth}")
     phase = ["enter"]
     try:
@@ -428,6 +558,11 @@ def scope(ses, allobjs, depth, root=None, keep=None, script=None):
             if id(o) in inscope:
                 kept = name in keepnames_by_obj[id(o)]
                 want = i[name] if kept else e[name]
+                if kept and a[name] == e[name] and f"poke {ses.ids[id(o)]} {name}" in ses.log[log0:] \
+                        and f"set {ses.ids[id(o)]} {name}" not in ses.log[log0:]:
+                    # a kept parameter that was only mutated IN PLACE (never assigned through its setter) inside the
+                    # scope: the keep-set speaks about assignments; restoring it is acceptable (the model pins which)
+                    continue
                 if a[name] != want:
                     key = ("retain-kept-parameter-lost" if kept else
                            "retain-cache-leaks" if name in ("<cache>", "<matcache>") else
@@ -483,14 +618,15 @@ def directed_nested_keep(ses, allobjs):
     ses.ctx.count("directed: kept parameter assigned before an inner scope")
 
 
-def do_copies(ses, allobjs):
+def do_copies(ses, allobjs, root=None):
     """deepcopy / pickle of a random subtree: equal values, fresh (deepcopy) or kept (pickle) serials, independence"""
     from armi.reactor.parameters import parameterCollections as pc
 
     ctx, rng = ses.ctx, ses.rng
     # (a bare Component is not a copy root here: deep-copying it follows its dimension links and silently copies
     # the linked sibling components as well, which the model does not describe)
-    root = rng.choice([o for o in allobjs if type(o).__name__ != "Reactor" and not hasattr(o, "material")] or allobjs)
+    if root is None:
+        root = rng.choice([o for o in allobjs if type(o).__name__ != "Reactor" and not hasattr(o, "material")] or allobjs)
     src = preorder(root)
     how = rng.choice(["deepcopy", "pickle"])
     live = {o.p.serialNum for o in ses.objs}
@@ -504,6 +640,7 @@ def do_copies(ses, allobjs):
         raise _Desync()
     for o in new:
         ses.register(o)
+    ses.scan_alias(new)
     srcids = "[" + ",".join(str(ses.ids[id(o)]) for o in src) + "]"
     # serial numbers are compared as a multiset (the order collections are copied in is not part of the property)
     line = ses.lines(new)
@@ -535,10 +672,18 @@ def do_copies(ses, allobjs):
             ctx.fail("pickle-serial-changed", "a pickle round trip preserves serial numbers (by design)", case)
     # independence: assignments on one side are invisible on the other
     both = src + new
-    for _ in range(rng.randint(2, 6)):
-        k = rng.randrange(len(src))
+    nest_idx = [i for i, o in enumerate(src) if any(is_nested(ses.val(o, pd)) for pd in ses.pdefs(o))]
+    for _ in range(rng.randint(3, 8)):
+        k = rng.choice(nest_idx) if nest_idx and rng.random() < 0.6 else rng.randrange(len(src))
         side, other = (src[k], new[k]) if rng.random() < 0.5 else (new[k], src[k])
         so = {pd.name: canon(ses.val(other, pd)) for pd in other.p.paramDefs}
+        if rng.random() < 0.6:
+            if do_poke(ses, side, prefer_nested=True):
+                if {pd.name: canon(ses.val(other, pd)) for pd in other.p.paramDefs} != so:
+                    ctx.fail(f"{how}-shares-nested-value", "an in-place change of a (nested) parameter value of the original or "
+                             "the copy does not show in the other", case | {"last": ses.log[-1]})
+                ses.emit(f"dump [{ses.ids[id(other)]}]", ses.obj_line(other))
+            continue
         if do_set(ses, side):
             if {pd.name: canon(ses.val(other, pd)) for pd in other.p.paramDefs} != so:
                 ctx.fail(f"{how}-not-independent", "a later change to one of original/copy does not show in the other", case)
@@ -725,6 +870,7 @@ def run_session(ctx, seq_seed, batch, nscopes):
             a2 = copy.deepcopy(r.core[0])
             a2.makeUnique()
             r.core.add(a2, r.core.spatialGrid[k + 1, 0, 0])
+    seed_nested(ses, preorder(r))
     ses.mirror(r)
     rack = make_rack(rng)
     ses.mirror(rack)
@@ -741,6 +887,14 @@ def run_session(ctx, seq_seed, batch, nscopes):
                     allobjs = allobjs + do_copies(ses, allobjs)
                 else:
                     body(ses, allobjs, 4, rng.randint(1, 4))
+            # directed: copy the owner of a ragged / nested payload (block, or its assembly) and mutate it in place
+            owners = [o for o in allobjs if not hasattr(o, "material") and type(o).__name__ != "Reactor"
+                      and any(is_nested(ses.val(o, pd)) for pd in ses.pdefs(o))]
+            if owners and len(allobjs) < 120:
+                o = rng.choice(owners)
+                up = o.parent if (o.parent is not None and rng.random() < 0.5 and type(o.parent).__name__ != "Reactor"
+                                  and any(o.parent is x for x in allobjs)) else o
+                allobjs = allobjs + do_copies(ses, allobjs, root=up)
             ses.emit(f"dump [{','.join(str(ses.ids[id(o)]) for o in allobjs)}]", ses.lines(allobjs))
             ses.ddump()
             if rng.random() < 0.5:
@@ -784,7 +938,31 @@ def excluded_points(ctx):
         ctx.fail("retain-grid-inplace-edit-leaks", "changes to grid pitch/bounds/offset inside a scope are undone",
                  {"grid": "CartesianGrid.fromRectangle(.., isOffset=True)", "inside": "grid._offset[0] += 7.0 (in place)"},
                  observed=str(g._offset), expected="offset as at scope entry")
-    ctx.count("excluded points run", 2)
+    # a KEPT parameter holding a ragged / nested payload (must stay the LAST point: the raising exit leaves the
+    # process-global definition back-up chains unbalanced)
+    with common.quiet():
+        r2 = copy.deepcopy(fixture())
+    b2 = r2.core[0][0]
+    rag = np.empty(2, dtype=object)
+    rag[0], rag[1] = np.array([1.0, 2.0]), np.array([3.0, 4.0, 5.0])
+    b2.p.pinMgFluxes = rag
+    p0 = b2.p.power
+    try:
+        with b2.retainState([b2.p.paramDefs["pinMgFluxes"]]):
+            b2.p.power = 5.0
+        ok, err = canon(b2.p.power) == canon(p0), None
+    except Exception as e:
+        ok, err = False, repr(e)[:120]
+        # the aborted exit never reached the (process-global, class-level) definitions: pop their dangling frame so
+        # that later sessions of this process (directed search) start from balanced chains
+        for pd in {id(q): q for o in [b2] + list(b2.iterChildren(deep=True)) for q in o.p.paramDefs}.values():
+            if pd._backup is not None:
+                pd._backup, pd.assigned = pd._backup
+    if not ok:
+        ctx.fail("retain-kept-nested-array-raises", "a scope with a keep-set ends normally and restores the other parameters",
+                 {"object": "block", "keep": ["pinMgFluxes"], "pinMgFluxes": "ragged object array (2 pins: 2 and 3 entries)",
+                  "inside": "b.p.power = 5.0"}, observed=err or "power not restored", expected="scope exit without error")
+    ctx.count("excluded points run", 3)
 
 
 def run(ctx):
